@@ -522,6 +522,35 @@ Proof.
   lia.
 Qed.
 
+Lemma memory_use_code_gt_n1 : forall n nzl nzu nzlu,
+  1 <= n -> 0 <= nzl -> 0 <= nzu -> 0 <= nzlu ->
+  n + 1 < f32 (memory_use c n nzl nzu nzlu + f32 n).
+Proof.
+  intros n nzl nzu nzlu Hn Hl Hu Hlu. unfold memory_use, iword.
+  set (x1 := f64 (10 * n)).
+  set (a := f64 (x1 * 4)).
+  set (b := f32 (f32 nzl * 4)).
+  set (cc := f32 (f32 nzu * f32 (4 + dword c))).
+  set (d := f32 (f32 nzlu * dword c)).
+  set (s1 := f64 (a + b)). set (s2 := f64 (s1 + cc)). set (s3 := f64 (s2 + d)). set (t := f32 s3).
+  assert (Hx1 : 7 * (10 * n) <= 8 * x1) by (apply f64_lb; lia).
+  assert (Hx1n : 0 <= x1) by (apply f64_nonneg; lia).
+  assert (Ha : 7 * (x1 * 4) <= 8 * a) by (apply f64_lb; lia).
+  assert (Hb : 0 <= b).
+  { apply f32_nonneg. apply Z.mul_nonneg_nonneg; [apply f32_nonneg; lia|lia]. }
+  assert (Hcc : 0 <= cc).
+  { apply f32_nonneg. apply Z.mul_nonneg_nonneg; apply f32_nonneg; lia. }
+  assert (Hd : 0 <= d).
+  { apply f32_nonneg. apply Z.mul_nonneg_nonneg; [apply f32_nonneg; lia|lia]. }
+  assert (Hs1 : 7 * (a + b) <= 8 * s1) by (apply f64_lb; lia).
+  assert (Hs2 : 7 * (s1 + cc) <= 8 * s2) by (apply f64_lb; lia).
+  assert (Hs3 : 7 * (s2 + d) <= 8 * s3) by (apply f64_lb; lia).
+  assert (Ht : 7 * s3 <= 8 * t) by (apply f32_lb; lia).
+  assert (Hfn : 0 <= f32 n) by (apply f32_nonneg; lia).
+  assert (Hc : 7 * (t + f32 n) <= 8 * f32 (t + f32 n)) by (apply f32_lb; lia).
+  lia.
+Qed.
+
 Lemma guess_nonneg : forall fill annz, 0 <= annz -> 0 <= guess fill annz.
 Proof. intros. unfold guess. destruct (fill <? 0) eqn:E; nia. Qed.
 
@@ -570,6 +599,45 @@ Proof.
     + intros H; inversion H; subst. apply memory_use_code_gt_n; lia.
   - destruct (a_prev a) as [g0|]; [|discriminate].
     destruct (a_lwork a =? -1); [discriminate|]. intros H. exfalso. eapply mi_refact_not_fail; eassumption.
+Qed.
+
+Lemma meminit_code_lemma1 : forall fuel a m code m',
+  1 <= a_n a -> 0 <= a_annz a -> 0 <= a_nzlumax a ->
+  mem_init fail c fuel a m = Ok (MIfail code) m' -> a_n a + 1 < code.
+Proof.
+  intros fuel a m code m' Hn Hannz Hnzlu. unfold mem_init.
+  assert (Hlu0 : 0 <= nzlumax0 c a).
+  { unfold nzlumax0. destruct (a_dyn a); [apply guess_nonneg|]; assumption. }
+  destruct (negb (a_refact a)).
+  - destruct (a_lwork a =? -1); [discriminate|].
+    destruct (mi_prefix fail c a _) as [pre m1|s m1]; simpl; [|discriminate].
+    destruct (retry_loop fail c fuel _ _ _ _ _ _ m1) as [r m2|s m2] eqn:E; simpl; [|discriminate].
+    apply retry_loop_nonneg in E; try (apply guess_nonneg; assumption).
+    unfold mi_finish. destruct r as [u l s nu nl|nu nl].
+    + destruct (is_null (p_lusup pre)); [|discriminate].
+      intros H; inversion H; subst. apply memory_use_code_gt_n1; lia.
+    + intros H; inversion H; subst. apply memory_use_code_gt_n1; lia.
+  - destruct (a_prev a) as [g0|]; [|discriminate].
+    destruct (a_lwork a =? -1); [discriminate|]. intros H. exfalso. eapply mi_refact_not_fail; eassumption.
+Qed.
+
+(* MemInit failed: no L/U is built and p?gssvx reads neither (since the repair: superlu_?QuerySpace is skipped when info > n + 1) *)
+Lemma driver_never_reads_unbuilt : forall fuel a m code m' infos fo,
+  1 <= a_n a -> 0 <= a_annz a -> 0 <= a_nzlumax a ->
+  mem_init fail c fuel a m = Ok (MIfail code) m' ->
+  gstrf_outcome (MIfail code) infos = Some fo ->
+  fo_lu_built fo = false /\ a_n a + 1 < fo_info fo /\
+  forallb (fun x => negb (reads_lu x)) (gssvx_tail (a_lwork a) (a_n a) (fo_info fo)) = true.
+Proof.
+  intros fuel a m code m' infos fo Hn Ha Hl Hm Hg.
+  pose proof (meminit_code_lemma1 fuel a m code m' Hn Ha Hl Hm) as Hc.
+  unfold gstrf_outcome in Hg. destruct (code <=? int_max); [|discriminate]. inversion Hg; subst fo. cbn [fo_lu_built fo_info].
+  split; [reflexivity|]. split; [exact Hc|].
+  unfold gssvx_tail. destruct (a_lwork a =? -1); [reflexivity|].
+  assert (E1 : (0 <? code) = true) by (apply Z.ltb_lt; lia).
+  assert (E2 : (code <=? a_n a) = false) by (apply Z.leb_gt; lia).
+  assert (E3 : (code <=? a_n a + 1) = false) by (apply Z.leb_gt; lia).
+  rewrite E1, E2, E3. reflexivity.
 Qed.
 
 End Code.
@@ -1122,13 +1190,14 @@ Lemma workfree_keeps_tail_example :
     pairwise_disjointb (live_blocks small_cfg 3 1 ts) = true.
 Proof. exists 10000, [0; 0; 1; 1; 1; 2]%nat. vm_compute. split; [reflexivity|]. split; [eexists; reflexivity|reflexivity]. Qed.
 
-(* (e) MemInit failed (info > n), no L/U was built, and p?gssvx still calls superlu_?QuerySpace(L, U) *)
-Lemma driver_reads_uninit_lemma :
+(* (e) MemInit failed (info > n + 1), no L/U was built: on the arguments that used to make p?gssvx call superlu_?QuerySpace(L, U)
+   on the unbuilt factors, nothing reads L or U any more (general statement: driver_never_reads_unbuilt) *)
+Lemma driver_skips_queryspace_example :
   exists a code m' fo,
     0 < a_lwork a /\
     mem_init (fun _ => false) default_cfg 64 a init_mem = Ok (MIfail code) m' /\
-    gstrf_outcome (MIfail code) [] = Some fo /\ a_n a < fo_info fo /\ fo_lu_built fo = false /\
-    existsb reads_lu (gssvx_tail (a_lwork a) (a_n a) (fo_info fo)) = true.
+    gstrf_outcome (MIfail code) [] = Some fo /\ a_n a + 1 < fo_info fo /\ fo_lu_built fo = false /\
+    existsb reads_lu (gssvx_tail (a_lwork a) (a_n a) (fo_info fo)) = false.
 Proof.
   exists (mkArgs 10 30 1 4 false false 200 0 0 300 0 None).
   eexists. eexists. eexists. split; [reflexivity|].
